@@ -2,6 +2,7 @@ package main
 
 import (
 	"fmt"
+	"os"
 	"go/types"
 	"strings"
 
@@ -11,8 +12,11 @@ import (
 type intrinsic func(e *Exec, args []Value, st string) Value
 
 // packages whose init functions are executed (concretely) before exploration
+var stdInit = map[string]bool{"io": true, "errors": true, "bytes": true, "encoding/binary": true, "sort": true, "slices": true,
+	"maps": true, "strings": true, "unicode/utf16": true, "unicode/utf8": true, "math/bits": true, "math": true, "io/fs": false}
+
 func initAllowed(path string) bool {
-	return strings.HasPrefix(path, "seehuhn.de/go/") || strings.HasPrefix(path, "golang.org/x/exp/")
+	return strings.HasPrefix(path, "seehuhn.de/go/") || strings.HasPrefix(path, "golang.org/x/exp/") || stdInit[path]
 }
 
 func (c *compiler) compileCall(cc *ssa.CallCommon, in ssa.Instruction, st string) (func(fr *frame) Value, bool) {
@@ -73,8 +77,27 @@ func (c *compiler) compileCall(cc *ssa.CallCommon, in ssa.Instruction, st string
 				}, false
 			}
 		}
-		if fn.Name() == "init" && fn.Pkg != nil && fn.Signature.Recv() == nil && !initAllowed(fn.Pkg.Pkg.Path()) {
-			return func(fr *frame) Value { return nil }, false
+		if fn.Name() == "init" && fn.Pkg != nil && fn.Signature.Recv() == nil {
+			if !initAllowed(fn.Pkg.Pkg.Path()) {
+				return func(fr *frame) Value { return nil }, false
+			}
+			if stdInit[fn.Pkg.Pkg.Path()] {
+				// best effort: an unsupported construct inside a standard library init is tolerated
+				return func(fr *frame) Value {
+					defer func() {
+						if r := recover(); r != nil {
+							switch r.(type) {
+							case pathEnd, *goPanic, specAbort:
+								panic(r)
+							}
+							if e.verbose || os.Getenv("GOSYM_DEBUG") != "" {
+								fmt.Fprintf(os.Stderr, "note: init of %s not completed: %v\n", fn.Pkg.Pkg.Path(), r)
+							}
+						}
+					}()
+					return e.callFn(fn, nil, nil)
+				}, false
+			}
 		}
 		if mc, isClosure := cc.Value.(*ssa.MakeClosure); isClosure {
 			cl := c.get(mc)
